@@ -692,15 +692,23 @@ pub fn main(args: &[String]) -> anyhow::Result<()> {
     let scratch = PathBuf::from(&args[2]);
     std::fs::create_dir_all(&scratch)?;
     watchdog::start(60, Some(PathBuf::from(&args[1]).with_extension("hang")));
+    watchdog::record_panics(std::env::var("NVH_DEBUG").is_err());
     for line in std::io::BufReader::new(scripts).lines() {
         let line = line?;
         if line.trim().is_empty() {
             continue;
         }
         let sc: Script = serde_json::from_str(&line)?;
-        match sc.cfg.hasher.as_str() {
-            "sha2" => run_script::<Sha2Hasher>(&sc, &scratch, &mut out)?,
-            _ => run_script::<Blake3Hasher>(&sc, &scratch, &mut out)?,
+        // a panic of the store outside a guarded call (drop of a handle, an observation) is an outcome
+        let r = std::panic::catch_unwind(std::panic::AssertUnwindSafe(|| match sc.cfg.hasher.as_str() {
+            "sha2" => run_script::<Sha2Hasher>(&sc, &scratch, &mut out),
+            _ => run_script::<Blake3Hasher>(&sc, &scratch, &mut out),
+        }));
+        match r {
+            Ok(r) => r?,
+            Err(_) => {
+                writeln!(out, "{}", json!({"ev":"Panic","run":sc.run,"msg":watchdog::last_panic(),"during":watchdog::current()}))?;
+            }
         }
         out.flush()?;
     }
